@@ -29,7 +29,8 @@ from vf.engines import explore, timermodel as tm
 LEVEL = "exploration"
 ENGINE = "E1-explore"
 TECHNIQUE = "runtime monitoring: reference timer-set model (exact rational times), relational order/once/on-time checks"
-RULE = ("random histories (families generic / in-call bodies / >50-cancellation bursts forcing heap compaction) of up to "
+RULE = ("random histories (families generic / in-call bodies / >50-cancellation bursts forcing heap compaction, with calls that "
+        "schedule-and-cancel new calls from inside the compacting iteration and lone callLater().cancel() pairs afterwards) of up to "
         "~260 operations over <= 60 (burst: 90) calls with dyadic times, run on a minimal ReactorBase subclass and on real "
         "Select/Poll/EPoll reactor instances; plus exhaustive histories (quick depth 4, thorough depth 5) over 3 calls, "
         "delays {0,1,2}, advances {0,1,2} with in-call bodies.  Distinct = (target kind, history); non-trivial = at least "
